@@ -62,16 +62,7 @@ class Env:
 
     def visible_fields(self, pkt):
         """names of the declared, value-bearing attributes of a packet"""
-        names = []
-        for name, f, _, _ in pkt.get_fields():
-            dn = getattr(f, "descriptor_name", None)
-            if getattr(f, "descriptor", None) is not None and dn:
-                names.append(dn)
-            elif not name.startswith("_"):
-                if type(f).__name__ in ("Em", "Move", "Bkpt"):
-                    continue
-                names.append(name)
-        return names
+        return project.visible_fields(pkt)
 
     def snap(self, v):
         """deep conversion to plain data"""
